@@ -60,7 +60,13 @@ def main(argv=None):
             for kid, what in rep.get("known", []):
                 known_hits.setdefault(kid, what)
             continue
-        out = run_obligation(name, params, jobs=args.jobs, want=prefixes,
+        if task.get("witness_rate") is not None:
+            os.environ["SX_WITNESS_RATE"] = str(task["witness_rate"])
+        else:
+            os.environ.pop("SX_WITNESS_RATE", None)
+        import sx.run as _r
+        _r.WITNESS_RATE = float(os.environ.get("SX_WITNESS_RATE", "0.02"))
+        out = run_obligation(name, params, jobs=task.get("jobs", args.jobs), want=prefixes,
                              cap_s=task.get("cap_s"))
         for k in tot:
             tot[k] += out.stats.get(k, 0)
@@ -81,7 +87,7 @@ def main(argv=None):
         if out.infos:
             samples.append(dict(obligation=name, path_info=out.infos[seed % len(out.infos)]))
         # witnesses of passing paths: the symbolic prediction must equal the real run
-        for wsc in out.witnesses[: (10 if tier == "thorough" else 3)]:
+        for wsc in out.witnesses[: task.get("max_witness", 10 if tier == "thorough" else 3)]:
             try:
                 obs, d = real.run_and_compare(wsc)
             except Exception as ex:
@@ -92,6 +98,10 @@ def main(argv=None):
                 validated += 1
                 if len(samples) < 6:
                     one = wsc["multi"][0] if "multi" in wsc else wsc
+                    if one.get("kind") == "db":
+                        samples.append(dict(obligation=name, db_scenario={k: one.get(k) for k in ("name", "entry", "crash_at")},
+                                            real_observation=obs["obs"][:6]))
+                        continue
                     samples.append(dict(obligation=name, witness_commands=[a for a in one["script"] if a[0] == "deliver"][-2:],
                                         real_observation=obs["obs"][:4]))
         # counterexamples: replay on real sqlite before believing them
@@ -178,6 +188,11 @@ def confirm(real, pid, obname, f, write=True):
         json.dump(dict(property=pid, obligation=obname, assertion=f["assertion"], replay=sc,
                        real_observation=obs), open(path, "w"), indent=1, default=str)
     one = sc["multi"][-1] if "multi" in sc else sc
+    if one.get("kind") == "db":
+        return dict(status="confirmed", replay=path, assertion=f["assertion"], obligation=obname,
+                    summary="%s(%s) initial=%s crash_at=%s -> observed %s" % (
+                        one.get("entry"), one.get("name"), str(one.get("initial"))[:80], one.get("crash_at"),
+                        json.dumps(obs["obs"])[:300]))
     cmds = [a for a in one["script"] if a[0] in ("deliver", "prune", "expire", "restart", "disconnect") and
             (len(a) < 4 or a[-1] == "step")]
     return dict(status="confirmed", replay=path, assertion=f["assertion"], obligation=obname,
